@@ -17,6 +17,7 @@ import (
 	"verif/harness/evd"
 	"verif/harness/ref"
 	"verif/harness/rig"
+	"verif/harness/seam"
 )
 
 // TestC06svc: the "background sweep" leg of C06 through the real dead-letter
@@ -37,7 +38,7 @@ func TestC06svc(t *testing.T) {
 	col := evd.New("C06", cfg)
 	defer col.Flush()
 	n := cfg.N(48, 1200)
-	var forwards, svcOnly, heldBack int64
+	var forwards, svcOnly, heldBack, svcFaults int64
 	for i := 0; i < n; i++ {
 		seed := cfg.CaseSeed("C06svc", i)
 		if !cfg.Want(i, seed) {
@@ -212,6 +213,15 @@ func TestC06svc(t *testing.T) {
 			// not part of the property; that it is worked off is)
 			batches := (len(expect) + set.MaxDeliveries - 1) / set.MaxDeliveries
 			bound := maxB + 2*time.Second + time.Duration(batches+2)*(set.Interval+set.Fuzz) + 5*time.Second
+			// in a third of the cases one statement of the service fails during this
+			// phase (a storage error): the sweep it belongs to is lost as a whole, the
+			// service logs it and carries on at its regular interval
+			faulted := r.Intn(3) == 0
+			if faulted {
+				seam.C.ResetCounts()
+				seam.C.SetFault(&seam.Fault{Actor: "svc", K: 1 + r.Intn(14), Mode: seam.FaultError})
+				bound += 2 * (set.Interval + set.Fuzz)
+			}
 			idleStart := time.Now()
 			for time.Since(idleStart) < bound {
 				time.Sleep(time.Second)
@@ -221,6 +231,12 @@ func TestC06svc(t *testing.T) {
 					must(e.Sub.ModifyAckDeadline(e.Ctx, &pubsubpb.ModifyAckDeadlineRequest{Subscription: s, AckIds: heldIDs, AckDeadlineSeconds: 600}))
 					lastHold = time.Now()
 				}
+			}
+			if faulted {
+				if seam.C.FaultHits() > 0 {
+					svcFaults++
+				}
+				seam.C.SetFault(nil)
 			}
 			drainDL(false)
 			for _, m := range expect {
@@ -299,6 +315,7 @@ func TestC06svc(t *testing.T) {
 	}
 	col.Add("ev_service_forwards_observed", forwards)
 	col.Add("ev_forwarded_by_service_alone", svcOnly)
+	col.Add("ev_storage_errors_injected_into_the_service", svcFaults)
 	col.Add("ev_held_back_below_max_attempts", heldBack)
 	col.Add("relevant_events", forwards+heldBack)
 }
